@@ -938,8 +938,36 @@ func c05Check(c c05Case) engine.Result {
 		// A = adaptation_field_control (0..3), B = adaptation_field_length; all 256 flag bytes x length bytes
 		var p [188]byte
 		for flags := 0; flags < 256; flags++ {
-			for _, pl := range []byte{0, 1, 0x7F, 0xB0, 0xFF} {
-				for _, el := range []byte{0, 1, 0x7F, 0xB0, 0xFF} {
+			// where the private-data length byte sits for these flags, and the values that make the
+			// private data end exactly on / just before / just past the last byte of the packet
+			tpd := 6
+			if flags&0x10 != 0 {
+				tpd += 6
+			}
+			if flags&0x08 != 0 {
+				tpd += 6
+			}
+			if flags&0x04 != 0 {
+				tpd++
+			}
+			plMenu := []byte{0, 1, 0x7F, 0xB0, 0xFF}
+			if flags&0x02 != 0 {
+				for d := -2; d <= 1; d++ {
+					plMenu = append(plMenu, byte(188-(tpd+1)+d))
+				}
+			}
+			for _, pl := range plMenu {
+				ext := tpd
+				if flags&0x02 != 0 {
+					ext = tpd + 1 + int(pl)
+				}
+				elMenu := []byte{0, 1, 0x7F, 0xB0, 0xFF}
+				if flags&0x01 != 0 && ext < 188 {
+					for d := -2; d <= 1; d++ {
+						elMenu = append(elMenu, byte(188-(ext+1)+d))
+					}
+				}
+				for _, el := range elMenu {
 					for i := range p {
 						p[i] = byte(i)
 					}
@@ -1100,10 +1128,7 @@ func c05Gen(family string) func(r *engine.Run, emit func(c05Case)) {
 				for si, s := range seeds {
 					maxCut := min(len(s), 40)
 					if !r.Thorough() {
-						maxCut = min(len(s), 28)
-						if si%2 != 0 {
-							continue
-						}
+						maxCut = min(len(s), 20)
 					}
 					for cut := 0; cut <= maxCut; cut++ {
 						b := 0
@@ -1161,8 +1186,8 @@ func init() {
 			c05Scenario("short-strings", "short", "ALL byte strings of length 0..2 (thorough: 0..3) for each of the 19 byte-string/stream entry points (PSI helpers, NewPAT, NewPMT, descriptor decoders, NewPESHeader, ReadEncoderBoundaryPoint, NewSCTE35, FromBytes, stream readers)."+common),
 			c05Scenario("seed-mutations", "mut1", "for each entry point and each well-formed seed of its pool (reference-built PAT/PMT/PES/EBP structures and packets + byte vectors captured from the repository's tests + SCTE-35 sections built through the creation API): the seed, EVERY truncation, extensions by 1..3 bytes of 00/FF, and EVERY byte position (all positions up to 72 bytes, else the first 56 and last 8) set to EVERY value 0..255, plus the mutated seed cut right after the mutated byte."+common),
 			c05Scenario("seed-double-mutations", "mut2", "pairs of mutations (position1 < position2, both from 16 interesting values 00,01,02,03,0D,34,47,7F,80,90,B0,F0,FC,FD,FE,FF) on every 4th seed (thorough: every seed) of every byte-string and packet entry point."+common),
-			c05Scenario("long-inputs", "long", "index-wraparound family: for every (2nd in quick) seed and every cut position up to 28 (thorough 40), the valid prefix is extended with each of 6 fills (00, 80, 90, FF, (01 FC)*, (01 00)*) to total lengths {255,256,257,300} and, for the SCTE-35/PMT/accumulator-predicate entry points, {4096,65535,65536,65537,65545,65600}, each also with 0xFFFF planted at every 2-byte position before the cut (makes 8-/16-bit cursors and length fields wrap)."+common),
-			c05Scenario("packet-grid", "grid", "packet accessors, modifiers and packet-level PSI helpers on packets with adaptation_field_control 0..3 x adaptation_field_length from 30 boundary values (thorough: all 256) x all 256 flag bytes x private-data length and extension length bytes from {00,01,7F,B0,FF} placed where the flags put them."+common),
+			c05Scenario("long-inputs", "long", "index-wraparound family: for every seed and every cut position up to 20 (thorough 40), the valid prefix is extended with each of 6 fills (00, 80, 90, FF, (01 FC)*, (01 00)*) to total lengths {255,256,257,300} and, for the SCTE-35/PMT/accumulator-predicate entry points, {4096,65535,65536,65537,65545,65600}, each also with 0xFFFF planted at every 2-byte position before the cut (makes 8-/16-bit cursors and length fields wrap)."+common),
+			c05Scenario("packet-grid", "grid", "packet accessors, modifiers and packet-level PSI helpers on packets with adaptation_field_control 0..3 x adaptation_field_length from 30 boundary values (thorough: all 256) x all 256 flag bytes x private-data length and extension length bytes from {00,01,7F,B0,FF} plus the four values around 'ends exactly on the last byte of the packet' for the given flags, placed where the flags put them."+common),
 			c05Scenario("stream-sequences", "streamseq", "stream readers (Sync, IsSynced, ReadPAT, ReadPMT, IOWriter Write/ReadFrom, the cli pipeline) on every sequence of <=3 packets from a 14-packet alphabet (good PAT/PMT, PMT split 3+rest, null, and single-field corruptions: section_length 0x3FF, pointer_field 0xFF, ES_info_length/program_info_length 0xFFF, adaptation_field_length 0xFF/183, AF-only, no sync byte), whole and — for sequences of <=2 (quick: a subset) — cut at every byte length; default and one-byte-at-a-time readers."+common),
 		},
 	})
